@@ -342,12 +342,19 @@ def space_from_params(name, p):
 def spaces(ctx):
     s = ctx.seed
     if ctx.quick:
-        return [make_space("full-2p-preempt2", "full", 2, 2, 0, s),
-                make_space("fmmu-2p-complete", "fmmu", 2, None, 0, s),
-                make_space("fmmu-3p-complete", "fmmu", 3, None, 0, s)]
-    return [make_space("full-2p-complete-crash1", "full", 2, None, 1, s),
-            make_space("full-3p-preempt2", "full", 3, 2, 0, s),
-            make_space("fmmu-3p-complete-crash1", "fmmu", 3, None, 1, s)]
+        sp = [make_space("full-2p-preempt2", "full", 2, 2, 0, s),
+              make_space("restart-2p-preempt2", "restart", 2, 2, 0, s),
+              make_space("fmmu-2p-complete", "fmmu", 2, None, 0, s),
+              make_space("fmmu-3p-complete", "fmmu", 3, None, 0, s)]
+    else:
+        sp = [make_space("full-2p-complete-crash1", "full", 2, None, 1, s),
+              make_space("restart-2p-complete", "restart", 2, None, 0, s),
+              make_space("full-3p-preempt2", "full", 3, 2, 0, s),
+              make_space("fmmu-3p-complete-crash1", "fmmu", 3, None, 1, s)]
+    only = _os.environ.get("C23_SPACES")      # development aid
+    if only:
+        sp = [x for x in sp if x.name in only.split(",")]
+    return sp
 
 
 def selftest():
